@@ -82,6 +82,42 @@ def remove_case_dir(files: Dict[int, str]) -> None:
         break
 
 
+# notes of the loading step of the case under evaluation (cleared by the runner before each case): a loaded frame
+# that does not correspond to its rank's file is a violation of whatever is analysed on top of it
+LOAD_NOTES: List[str] = []
+
+
+def check_frames_match_files(t, ranks_events: Dict[Any, List[Any]]) -> None:
+    """Every row of a loaded frame carries, in its `index` column, the position of its event in the rank's file: name,
+    category and (integral) duration of that event must be the row's. Never raises; appends to LOAD_NOTES."""
+    try:
+        tab = t.symbol_table.get_sym_table()
+        for r in t.get_ranks():
+            ev = ranks_events.get(r, ranks_events.get(str(r)))
+            if ev is None:
+                continue
+            df = t.get_trace(r)
+            bad = None
+            for idx, nm, ct, du in zip(df["index"].tolist(), df["name"].tolist(), df["cat"].tolist(), df["dur"].tolist()):
+                i = int(idx)
+                e = ev[i] if 0 <= i < len(ev) else None
+                if not isinstance(e, dict):
+                    bad = f"row {i} has no event in the file"
+                    break
+                if str(e.get("name", "")) != tab[int(nm)] or str(e.get("cat")) != tab[int(ct)]:
+                    bad = f"row {i} is {tab[int(ct)]}/{tab[int(nm)]!r}, the file's event {i} is {e.get('cat')}/{str(e.get('name', ''))!r}"
+                    break
+                fd = e.get("dur")
+                if isinstance(fd, int) and not isinstance(fd, bool) and float(du) == int(float(du)) and int(float(du)) != fd:
+                    bad = f"row {i} has dur {du}, the file's event {i} has dur {fd}"
+                    break
+            if bad:
+                LOAD_NOTES.append(f"rank {r}: the loaded frame is not that of the rank's file: {bad}")
+                return
+    except Exception:  # noqa: BLE001
+        return
+
+
 def load(files: Dict[int, str], include_last: bool = False, mp: bool = False, ctor: Optional[str] = None):
     """TraceAnalysis-equivalent load, with control over multiprocessing. `ctor`: "dir" / "list" go through the real
     TraceAnalysis constructor with only the directory, or with a list of file names (the ranks are then discovered from
